@@ -46,5 +46,11 @@ Lemma code_append_status :
   cf_append_checks_status_once = true /\ cf_sync_behind_record_unconditional = true.
 Proof. split; reflexivity. Qed.
 
+(* every appending entry point of the log refuses while the log is marked as rotating: batches and
+   numbered appends too (the rotation protocol of EngineConc.v takes "no append after the mark" for
+   every kind of write) *)
+Lemma code_appends_refuse_rotating : cf_appends_refuse_rotating = true.
+Proof. reflexivity. Qed.
+
 Lemma conc_facts_all : forallb (fun b => b) conc_facts = true.
 Proof. vm_compute. reflexivity. Qed.
